@@ -3189,6 +3189,13 @@ func (dsc *dataStoreCommand) sort(sourceKeyName, byPattern, destKeyName string, 
 	}
 
 	if destKeyName != "" {
+		// the destination is replaced, whatever it held (and deleted when
+		// there is nothing to store)
+		dsc.ds.data.remove(destKeyName)
+		if len(a) == 0 {
+			output.data = respInt(0)
+			return
+		}
 		list := dsc.newListUnlocked(destKeyName)
 
 		for _, element := range a {
